@@ -523,7 +523,7 @@ def _probe(seed):
 LOG_CFG = {
     # cfg, number of paths replayed (None = all), invariant cfg
     "quick": [("DrillholeLogQuick.cfg", 2000)],
-    "thorough": [("DrillholeLogQuick.cfg", None), ("DrillholeLogDeep.cfg", 12000), ("DrillholeLogDeepText.cfg", 12000)],
+    "thorough": [("DrillholeLogQuick.cfg", None), ("DrillholeLogDeep.cfg", 8000), ("DrillholeLogDeepText.cfg", 8000)],
 }
 LOG_INV = {"quick": ["DrillholeLogQuickInv.cfg"],
            "thorough": ["DrillholeLogQuickInv.cfg", "DrillholeLogDeepInv.cfg", "DrillholeLogDeepTextInv.cfg"]}
@@ -548,9 +548,25 @@ def _run_log(tier, seed):
         replayed += len(items)
         steps += sum(o["steps"] for o in out)
         flagged = sum(1 for s in g.states.values() if _flag_findings(s))
+        # vacuity: the graph must contain merges of collocated depths / intervals, unsorted arguments and
+        # re-sorts that renumber existing cells
+        merged = unsorted = renumbered = 0
+        for src, dst, lbl in g.edges:
+            a, b = g.states[src], g.states[dst]
+            at = lbl["args"]["at"]
+            if lbl["act"] == "AddDepth":
+                merged += len(b["verts"]) - len(a["verts"]) < len(at)
+            else:
+                merged += len(b["cells"]) - len(a["cells"]) < len(at)
+            unsorted += at != sorted(at)
+            renumbered += bool(a["cells"]) and b["cells"][:len(a["cells"])] != a["cells"]
+        if not (merged and unsorted and renumbered):
+            raise MachineryError(f"DrillholeLog/{cfg}: vacuous graph (merges {merged}, unsorted arguments {unsorted}, "
+                                 f"cell renumberings {renumbered})")
         cov["per_config"][cfg] = {"states": res.distinct, "transitions": len(g.edges), "paths": len(paths),
                                   "paths_replayed": len(items), "tlc_wall_s": round(res.wall_s, 1),
-                                  "states_flagged_by_tlc": flagged}
+                                  "states_flagged_by_tlc": flagged, "calls_merging_collocated": merged,
+                                  "calls_with_unsorted_arguments": unsorted, "calls_renumbering_cells": renumbered}
         if sample is None:
             it = items[len(items) // 2]
             sample = {"cfg": cfg, "table": it[1] + 1, "mode": it[2], "actions": [s[0] for s in it[3]],
@@ -667,7 +683,7 @@ def run(tier, seed):
             "intervals, collocation distance 0.001 or 0.01, float and text values; depths of one call are not "
             "collocated with each other; text depth data never collocates with an existing depth (the code refuses it)",
             "quick tier replays a seeded sample (2000 paths) of the path cover of the 2-call add_data graph; thorough "
-            "replays all of it and seeded samples (12000 paths each) of the two 3-call graphs",
+            "replays all of it and seeded samples (8000 paths each) of the two 3-call graphs",
             "concatenated drillholes (DrillholeGroup, version 2.x) are covered for desurvey only; their add_data keeps "
             "no vertices or cells (C04)",
         ],
